@@ -7,6 +7,7 @@ import (
 	"io"
 	"math/rand"
 	"sort"
+	"strings"
 
 	proto "github.com/kubewharf/kubebrain-client/api/v2rpc"
 
@@ -27,7 +28,7 @@ func init() {
 		Plan: func(tier string) Plan {
 			return Plan{Level: "exploration", NCases: pick(tier, 200, 40000), Batch: 4, CaseTimeout: 60,
 				Rule: "one case = 2000 generated (key, revision) inputs over the alphabet bytes > '$' (empty, 1-byte, 0xff-terminated, all-0xff, prefix-related pairs, pairs differing in the last byte; revisions 0, 1, 2^63, 2^64-1, random) checked for round trip and pairwise order, " +
-					"plus one key set loaded as index+version records into the real memkv engine and 60 raw ranges / prefixes iterated through the computed internal bounds (and through Backend.List for PrefixEnd bounds and raw ranges between stored keys, on memkv, on a TiKV mock pre-split into regions and on a memkv reporting several partitions). " +
+					"plus one key set loaded as index+version records into the real memkv engine and 60 raw ranges / prefixes iterated through the computed internal bounds (and through Backend.List for PrefixEnd bounds and raw ranges between stored keys, on memkv, on a TiKV mock pre-split into regions and on a memkv reporting several partitions); every 4th case also compacts nodes configured with the key prefixes \"\" (the default), \"/\", with and without trailing slash, with a doubled slash and relative: exactly the records under the prefix must be reached. " +
 					"non-trivial = case containing >=1 prefix-related pair, >=1 0xff-terminated key and >=1 extreme revision; distinct by input digest",
 				Assumptions: []string{"keys are drawn from the documented alphabet only (every byte greater than '$')"},
 				MinConcl:    pick(tier, 180, 38000)}
@@ -424,6 +425,68 @@ func runC10(c *harness.Case) {
 			return
 		}
 		c.Stat("list_ranges_checked", 1)
+	}
+	// the bounds a node computes from its configured key prefix for compaction: whatever the prefix looks like (empty -
+	// the --key-prefix default -, with or without a trailing slash, with a doubled slash, relative), a compaction
+	// must reach exactly the records under it
+	if c.Index%4 == 0 {
+		for _, pfx := range []string{"", "/", "/registry", "/registry/", "/x//y", "/a.b", "rel"} {
+			eng2, _ := harness.NewEngine("memkv")
+			n2 := harness.NewNode(harness.NodeOpts{KV: eng2.KV, EmptyPrefix: pfx == "", Config: backend.Config{Prefix: pfx}})
+			base := pfx
+			if !strings.HasSuffix(base, "/") {
+				base += "/"
+			}
+			k1, k2 := base+"k1", base+"dir/k2"
+			okAll := true
+			var last uint64
+			for i, v := range []string{"v1", "v2", "v3"} {
+				var out harness.Outcome
+				if i == 0 {
+					out = n2.Do(harness.SeqOp{Kind: "create", Key: k1, Val: []byte(v)})
+				} else {
+					out = n2.Do(harness.SeqOp{Kind: "update", Key: k1, Val: []byte(v), Exp: last})
+				}
+				okAll = okAll && out.Err == "" && out.Succeeded
+				last = out.Rev
+			}
+			o2 := n2.Do(harness.SeqOp{Kind: "create", Key: k2, Val: []byte("x")})
+			o3 := n2.Do(harness.SeqOp{Kind: "delete", Key: k2, Exp: o2.Rev})
+			okAll = okAll && o2.Succeeded && o3.Succeeded
+			n2.WaitCommitted(o3.Rev, 30e9)
+			if !okAll {
+				n2.Retire()
+				c.Inconclusive(fmt.Sprintf("set-up writes failed under prefix %q", pfx))
+				return
+			}
+			_, cerr := n2.B.Compact(harness.Ctx, n2.Committed())
+			dump, derr := harness.Dump(eng2.KV, []byte{0}, []byte{0xff, 0xff, 0xff, 0xff, 0xff})
+			n2.Retire()
+			if cerr != nil || derr != nil {
+				c.Inconclusive(fmt.Sprintf("compaction under prefix %q: %v %v", pfx, cerr, derr))
+				return
+			}
+			versions := map[string]int{}
+			index := map[string]bool{}
+			for _, rec := range dump {
+				raw, rev, err := coderC.Decode(rec.Key)
+				if err != nil {
+					continue
+				}
+				if rev == 0 {
+					index[string(raw)] = true
+				} else {
+					versions[string(raw)]++
+				}
+			}
+			if versions[k1] != 1 || !index[k1] || versions[k2] != 0 || index[k2] {
+				c.Violatef("C10 compaction-bounds-of-configured-prefix-enclose-wrong-set", map[string]interface{}{"prefix": pfx},
+					"node configured with key prefix %q: after three versions of %q, a create+delete of %q and Compact(latest) the engine holds %d version(s) and index=%v of the first and %d version(s) and index=%v of the second; a compaction whose bounds enclose the prefix's records leaves exactly the newest version of the first and nothing of the second",
+					pfx, k1, k2, versions[k1], index[k1], versions[k2], index[k2])
+				return
+			}
+			c.Stat("configured_prefixes_compacted", 1)
+		}
 	}
 	c.Fingerprint(nPrefixPairs > 0 && nFF > 0 && nExtreme > 0, c.Seed, c.Index, len(all), nPrefixPairs)
 	if c.Index < 2 {
